@@ -1,6 +1,8 @@
 SPECIFICATION Spec
 CONSTANTS
   NULL = NULL
+  PINF = PINF
+  NINF = NINF
   TabCols <- MC_TabCols
   ColVals <- MC_ColVals
   Kind <- MC_Kind
